@@ -125,10 +125,10 @@ def run(ctx):
     if ctx.shard in (0, 1, 2, 3):
         rng = ctx.rng("deepchain")
         fam = ("Node", "LM", "NM", "AnyNode")[ctx.shard]
-        n = 700
+        n = 1500  # deeper than the interpreter's default recursion limit
         par = tuple([None] + list(range(n - 1)))
         nodes = TR.build(par, fam)
-        pairs = [(n - 1, 0), (0, n - 1), (n - 1, n - 1), (n - 2, 5), (400, 650)] + [(rng.randrange(n), rng.randrange(n)) for _ in range(10)]
+        pairs = [(n - 1, 0), (0, n - 1), (n - 1, n - 1), (n - 2, 5), (400, 650), (1400, 1450), (n - 1, n - 2)] + [(rng.randrange(n), rng.randrange(n)) for _ in range(10)]
         ctx.count("C15.very_deep_chain")
         check_universe(ctx, nodes, list(par), {"family": fam, "par": "chain(%d)" % n}, pairs, key=(fam, "deepchain"))
     histories(ctx)
